@@ -60,6 +60,10 @@ class Maker:
     def noop(self):
         return None
 
+    def use_proxy(self, p, meth, args):
+        # a hosted method that is handed a proxy and uses it: inside the server process the proxy call takes the in-process path
+        return getattr(p, meth)(*args)
+
 
 def register():
     from mpservice.multiprocessing.server_process import ServerProcess
@@ -101,6 +105,12 @@ def agent(conn):
                 held[cmd[4]] = getattr(held[cmd[1]], cmd[2])(*cmd[3])
             elif op == 'item_hold':  # held[new] = held[name][key]
                 held[cmd[3]] = held[cmd[1]][cmd[2]]
+            elif op == 'call_with':  # held[a].meth(held[b], *args): a proxy passed as an argument to a hosted method
+                r = ('RET', getattr(held[cmd[1]], cmd[2])(held[cmd[3]], *cmd[4]))
+            elif op == 'inplace':  # held[name] *= arg / += arg, as the augmented assignment statement does it
+                import operator
+                held[cmd[1]] = (operator.imul if cmd[2] == 'imul' else operator.iadd)(held[cmd[1]], cmd[3])
+                r = ('RET', type(held[cmd[1]]).__name__)
             elif op == 'drop':
                 del held[cmd[1]]
             elif op == 'give':
